@@ -7,6 +7,7 @@ import (
 	"crypto/sha256"
 	"encoding/hex"
 	"fmt"
+	"github.com/ethereum/go-ethereum/rlp"
 	"math/rand"
 	"net"
 	"sort"
@@ -178,10 +179,17 @@ func runRadius(o *Out, r *rand.Rand, thorough bool, _ []string) {
 	// full buckets: most newcomers then become replacements, which count as members for the radius cache
 	fillTable(hist, r, 250, false)
 	fillTable(state, r, 250, false)
+	// and a history node whose buckets have room: there a newcomer becomes an entry at once
+	roomy := startNode(mn, r, nodeOpts{ip: net.IP{34, 81, 1, 3}, port: 9702, utpLimit: 10})
+	fillTable(roomy, r, 12, false)
+	defer roomy.stop()
 	for s := 0; s < seqs; s++ {
 		nd, net_ := hist, "history"
-		if r.Intn(2) == 0 {
+		switch r.Intn(3) {
+		case 0:
 			nd, net_ = state, "state"
+		case 1:
+			nd = roomy
 		}
 		peer := signRecPad(keyFromSeed(r), net.IP{byte(35 + s/60000), byte(s / 250 % 250), byte(s % 250), 9}, 6000, 5, 0)
 		// a full bucket sends a newcomer to the replacement list: still a member for the radius cache
@@ -200,7 +208,7 @@ func runRadius(o *Out, r *rand.Rand, thorough bool, _ []string) {
 			}
 			return "none"
 		}
-		if r.Intn(4) != 0 {
+		if r.Intn(4) != 0 && (nd != roomy || r.Intn(2) == 0) {
 			nd.p.VerifTable().VerifAddNode(peer, false, true)
 		}
 		member := membership()
@@ -245,6 +253,27 @@ func runRadius(o *Out, r *rand.Rand, thorough bool, _ []string) {
 					cs = hex.EncodeToString(cached)
 				}
 				o.Case(fmt.Sprintf("raddenr before=%s member=%s", before, membership()), "cache="+cs)
+				continue
+			}
+			if r.Intn(7) == 0 || (nd == roomy && e == 0 && r.Intn(2) == 0) {
+				// the peer answers one of our FINDCONTENT requests with a list of closer nodes: that says nothing about ITS radius
+				// (it may enter the table by this; what the cache holds for it stays what it last reported, or nothing)
+				before := membership()
+				var recs [][]byte
+				for k := r.Intn(3); k > 0; k-- {
+					n2 := signRecPad(keyFromSeed(r), net.IP{36, byte(r.Intn(250)), byte(r.Intn(250)), 9}, 6001, 1, 0)
+					b, _ := rlp.EncodeToBytes(n2.Record())
+					recs = append(recs, b)
+				}
+				body, _ := (&portalwire.Enrs{Enrs: recs}).MarshalSSZ()
+				reply := append([]byte{portalwire.CONTENT, portalwire.ContentEnrsSelector}, body...)
+				_, _, perr := nd.p.VerifProcessContent(peer, reply)
+				cached, found := nd.p.VerifRadiusCacheGet(peer.ID())
+				cs := "none"
+				if found {
+					cs = hex.EncodeToString(cached)
+				}
+				o.Case(fmt.Sprintf("rcontentenrs before=%s member=%s", before, membership()), fmt.Sprintf("%s cache=%s", errStr(perr), cs))
 				continue
 			}
 			res := "ok"
